@@ -465,6 +465,27 @@ def write_replay(prop, kind, payload):
 
 
 def run_check(prop, tier='quick', seed=0, replay=None):
+    """One check.  The code under test leaves temporary files and directories behind (tmgr input staging, the pilot
+    launcher, ...): for the time of the check TMPDIR points into the check's own scratch area, which is removed at
+    the end -- nothing is left under /tmp."""
+    import tempfile
+    tmpd = os.path.join(VERIF, '.scratch', 'tmp-%s-%d' % (prop.id, os.getpid()))
+    os.makedirs(tmpd, exist_ok=True)
+    old_tmp = os.environ.get('TMPDIR')
+    os.environ['TMPDIR'] = tmpd
+    tempfile.tempdir = None
+    try:
+        return _run_check(prop, tier=tier, seed=seed, replay=replay)
+    finally:
+        if old_tmp is None:
+            os.environ.pop('TMPDIR', None)
+        else:
+            os.environ['TMPDIR'] = old_tmp
+        tempfile.tempdir = None
+        shutil.rmtree(tmpd, ignore_errors=True)
+
+
+def _run_check(prop, tier='quick', seed=0, replay=None):
     t0 = time.time()
     rng = random.Random(seed)
     known = load_known()
